@@ -118,6 +118,8 @@ class ProgGen:
         if any(mf != (1,) for mf in r.mfs) or any(hf.tree != (1,) for hf in r.hfs):
             return False
         d = r._data
+        if d.dtype == bool:
+            return True
         return bool(np.all(d.real == np.round(d.real)) and np.all(d.imag == np.round(d.imag)) and np.all(np.abs(d) < 2 ** 40))
 
     def modelled(self, *ids):
@@ -872,14 +874,15 @@ class ProgGen:
             return None
         m = self.yastn.eye(self.cfg, legs=[leg.conj(), leg], isdiag=True)
         m._data = np.array([rng.random() < 0.6 for _ in range(m.size)], dtype=bool)
-        k = self._push({"f": "opaque", "a": []}, m, opname="mask_input")
+        mi = m._replace(data=m._data.astype(np.float64))   # the same mask with 0/1 numbers: what the model is given
+        k = self._push({"f": "input", "a": [], "tensor": tgen.to_model(mi)}, m, opname="mask_input")
 
         def oracle(r):
             dx = x.to_numpy()
             keep = np.asarray(m.to_numpy().diagonal()).astype(bool)
             ref = np.compress(keep, dx, axis=ax)
             return ("dense-compact", ref, ax, keep, leg)
-        return self._do(None, lambda V: V[k].apply_mask(V[i], axes=ax), oracle, "apply_mask", (k, i))
+        return self._do({"f": "apply_mask", "a": [k, i], "axis": ax}, lambda V: V[k].apply_mask(V[i], axes=ax), oracle, "apply_mask", (k, i))
 
     def op_fuse(self, mal, mode=None):
         rng = self.rng
